@@ -111,13 +111,13 @@ Definition prepend_iri (p i : string) (o : json) : json := set_elems p (JStr i :
 (* pub.GetId *)
 Definition get_id (v : json) : res string :=
   match jget "id" v with
-  | Some (JStr s) => Ok (if has_scheme s then s else nil_iri)
-  | Some _ => Ok nil_iri
+  | Some (JStr s) => if has_scheme s then Ok s else Err EGeneric   (* fix F19: an id that is no IRI is an error, not a nil URL *)
+  | Some _ => Err EGeneric
   | None =>
       if vhas v "href" then
         match jget "href" v with
-        | Some (JStr s) => Ok (if has_scheme s then s else nil_iri)
-        | Some _ => Ok nil_iri
+        | Some (JStr s) => if has_scheme s then Ok s else Err EGeneric
+        | Some _ => Err EGeneric
         | None => Err EGeneric
         end
       else Err EGeneric
